@@ -44,7 +44,14 @@ def _rn(e, name, kind):
     """harness symbols of a SECOND invocation in the same path (history check, contracts.verify_contract) are renamed:
     e.sym_rename = {'real': suffix, 'int': suffix} -- an empty suffix keeps the symbol of the first invocation"""
     rn = getattr(e, "sym_rename", None)
-    return name + rn.get(kind, "") if rn else name
+    if not rn:
+        seen = getattr(e, "sym_names", None)
+        if seen is not None and (name, kind) not in seen:
+            seen.append((name, kind))     # (first invocation: remember which symbols the harness uses)
+        return name
+    if "only" in rn:                      # exactly the listed symbols (or every array) get a new name, all others are kept
+        return name + rn.get("suffix", "~2") if (name in rn["only"] or (kind == "array" and "<arrays>" in rn["only"])) else name
+    return name + rn.get("array" if kind == "array" and "array" in rn else ("real" if kind == "array" else kind), "")
 
 
 def integer(e, name, lo=None, hi=None):
@@ -122,7 +129,7 @@ def matrix(e, name, n, m):
 def array(e, name, shape, kind="real", constraint=None):
     """uninterpreted array (arbitrary contents).  constraint(elem) -> bool term states `forall idx. P(a[idx])`:
     the instance for every index that is ever read is added to the path condition."""
-    name = _rn(engine.cur() if e is None else e, name, "real")
+    name = _rn(engine.cur() if e is None else e, name, "array")
     a = values.fresh_array(name, shape, kind)
     if constraint is None:
         return a
